@@ -11,10 +11,42 @@ pub fn res_tree(r: Result<Value, jsonb::Error>) -> String {
 }
 
 pub fn exec(line: &str) -> String {
-    let mut f: Vec<&str> = line.trim().split(' ').collect();
+    let f: Vec<&str> = line.trim().split(' ').collect();
+    exec_fields(&f)
+}
+
+pub fn exec_fields(f0: &[&str]) -> String {
+    let mut f: Vec<&str> = f0.to_vec();
     // `spec:<op>` asks the model for the spec-layer answer; the real code runs the same op
     if let Some(op) = f[0].strip_prefix("spec:") {
         f[0] = op;
+    }
+    // `t:<op>`: the request carries JSON text for some document arguments; the real functions
+    // dispatch on their own
+    if let Some(op) = f[0].strip_prefix("t:") {
+        f[0] = op;
+        match f.as_slice() {
+            ["fromslice", h] => return match unhex(h) { Some(b) => res_tree(jsonb::from_slice(&b)), None => "bad-request".to_string() },
+            ["lazyvec", h] => return match unhex(h) {
+                Some(b) => match jsonb::parse_lazy_value(&b) {
+                    Ok(l) => {
+                        let v = l.to_vec();
+                        let mut w = vec![1u8, 2];
+                        l.write_to_vec(&mut w);
+                        if w[2..] != v[..] { return "write_to_vec/to_vec differ".to_string(); }
+                        if l.array_length() != jsonb::array_length(&v) { return "array_length differs".to_string(); }
+                        if jsonb::from_slice(&v).ok().as_ref() != Some(&*l.to_value()) { return "to_value differs".to_string(); }
+                        format!("ok {}", hex(&v))
+                    }
+                    Err(_) => "err".to_string(),
+                },
+                None => "bad-request".to_string(),
+            },
+            _ => {}
+        }
+    }
+    if let Some(r) = crate::ops_tj::exec(f.as_slice()) {
+        return r;
     }
     match f.as_slice() {
         ["numenc", v] => match parse_tree(v) {
@@ -113,7 +145,7 @@ pub fn exec(line: &str) -> String {
             }
             None => "bad-request".to_string(),
         },
-        _ => match crate::ops_access::exec(f.as_slice()).or_else(|| crate::ops_edit::exec(f.as_slice())).or_else(|| crate::ops_order::exec(f.as_slice())).or_else(|| crate::ops_text::exec(f.as_slice())).or_else(|| crate::ops_path::exec(f.as_slice())).or_else(|| crate::ops_select::exec(f.as_slice())) {
+        _ => match crate::ops_access::exec(f.as_slice()).or_else(|| crate::ops_edit::exec(f.as_slice())).or_else(|| crate::ops_order::exec(f.as_slice())).or_else(|| crate::ops_text::exec(f.as_slice())).or_else(|| crate::ops_path::exec(f.as_slice())).or_else(|| crate::ops_select::exec(f.as_slice())).or_else(|| crate::ops_serde::exec(f.as_slice())) {
             Some(r) => r,
             None => "bad-request".to_string(),
         },
